@@ -12,6 +12,7 @@ import (
 	gmsl "github.com/matrix-org/gomatrixserverlib"
 	"github.com/matrix-org/gomatrixserverlib/spec"
 
+	"verifharness/ref"
 	"verifharness/sim"
 	"verifharness/world"
 )
@@ -346,6 +347,15 @@ func (w *kworld) buildCase(impl gmsl.IRoomVersion, A, B, C, D, E *world.Server) 
 	var obj map[string]json.RawMessage
 	json.Unmarshal(ev.JSON(), &obj)
 	delete(obj, "signatures")
+	if t.Chance(150) {
+		// a second hash algorithm beside sha256, as the hashes object allows
+		var h map[string]json.RawMessage
+		if json.Unmarshal(obj["hashes"], &h) == nil && h != nil {
+			h["sha512"] = json.RawMessage(`"` + spec.Base64Bytes(t.Bytes(64)).Encode() + `"`)
+			obj["hashes"], _ = json.Marshal(h)
+			r.Probe("event_with_a_second_hash_algorithm")
+		}
+	}
 	c.base, _ = json.Marshal(obj)
 	c.unrel = D
 	c.baseDesc = c.desc
@@ -398,11 +408,37 @@ func (w *kworld) signCase(impl gmsl.IRoomVersion, c *evCase) {
 	if err != nil {
 		r.Violate("C06", "build", "reparse", "re-parse of unsigned event failed: %v", err)
 	}
+	// Other implementations sign too: in some runs the signatures are made
+	// over a redaction computed here from the specification's keep-lists
+	// (harness/ref), byte-preserving for whatever is kept, instead of by the
+	// library's own Sign. Only for event kinds on which specification and
+	// library agree about what is kept (no third-party invites, no create).
+	kl, known := ref.RedactionKeepList(string(c.ver))
+	// (the reference lists of unstable versions are upper bounds only)
+	stable := map[gmsl.RoomVersion]bool{"1": true, "2": true, "3": true, "4": true, "5": true, "6": true, "7": true, "8": true, "9": true, "10": true, "11": true, "12": true}
+	foreign := known && stable[c.ver] && t.Chance(400)
+	if foreign {
+		r.Probe("signed_by_another_implementation")
+	}
+	sign := func(e gmsl.PDU, name string, keyID gmsl.KeyID, priv []byte) gmsl.PDU {
+		if !foreign {
+			return e.Sign(name, keyID, priv)
+		}
+		out, ferr := foreignSign(kl, e.JSON(), name, keyID, priv)
+		if ferr != nil {
+			r.Violate("C06", "build", "foreign_sign", "reference signer failed: %v", ferr)
+		}
+		ne, perr := impl.NewEventFromTrustedJSON(out, false)
+		if perr != nil {
+			r.Violate("C06", "build", "reparse", "re-parse after reference signing failed: %v", perr)
+		}
+		return ne
+	}
 	for _, sv := range c.required {
 		pl := plan(sv)
 		c.plans[sv.Name] = append(c.plans[sv.Name], pl)
 		if pl.kind != "absent" {
-			ev = ev.Sign(string(sv.Name), pl.keyID, pl.priv)
+			ev = sign(ev, string(sv.Name), pl.keyID, pl.priv)
 		}
 	}
 	// second signatures of required servers, and unrelated servers
@@ -411,7 +447,7 @@ func (w *kworld) signCase(impl gmsl.IRoomVersion, c *evCase) {
 			pl := plan(sv)
 			if pl.kind != "absent" && !hasKeyID(c.plans[sv.Name], pl.keyID) {
 				c.plans[sv.Name] = append(c.plans[sv.Name], pl)
-				ev = ev.Sign(string(sv.Name), pl.keyID, pl.priv)
+				ev = sign(ev, string(sv.Name), pl.keyID, pl.priv)
 				r.Probe("second_signature_of_required_server")
 			}
 		}
@@ -423,7 +459,7 @@ func (w *kworld) signCase(impl gmsl.IRoomVersion, c *evCase) {
 		}
 	}
 	if !isReq && t.Chance(300) {
-		ev = ev.Sign(string(D.Name), D.Current().ID, sim.Pick(t, [][]byte{D.Current().Priv, c.required[0].Current().Priv}))
+		ev = sign(ev, string(D.Name), D.Current().ID, sim.Pick(t, [][]byte{D.Current().Priv, c.required[0].Current().Priv}))
 		r.Probe("unrelated_signature")
 	}
 	// apply corruption to the JSON
@@ -458,6 +494,56 @@ func (w *kworld) signCase(impl gmsl.IRoomVersion, c *evCase) {
 	}
 	c.desc = c.baseDesc + fmt.Sprintf(" ts=%d signers[%s]", spec.AsTimestamp(c.ts), strings.Join(ps, " "))
 	r.Logf("t=%v built %s", r.Now(), c.desc)
+}
+
+// foreignSign signs an event the way an independent implementation would: it
+// redacts by the specification's keep-list, keeping the bytes of whatever
+// survives, signs that, and adds the one signature to the event.
+func foreignSign(kl *ref.KeepList, evJSON []byte, name string, keyID gmsl.KeyID, priv []byte) ([]byte, error) {
+	var top map[string]json.RawMessage
+	if err := json.Unmarshal(evJSON, &top); err != nil {
+		return nil, err
+	}
+	var typ string
+	_ = json.Unmarshal(top["type"], &typ)
+	red := map[string]json.RawMessage{}
+	for k, v := range top {
+		if kl.TopKept(k) && k != "signatures" && k != "unsigned" {
+			red[k] = v
+		}
+	}
+	var content map[string]json.RawMessage
+	if err := json.Unmarshal(top["content"], &content); err != nil {
+		return nil, err
+	}
+	kept := map[string]json.RawMessage{}
+	for k, v := range content {
+		if kl.ContentKept(typ, k) {
+			kept[k] = v
+		}
+	}
+	red["content"], _ = json.Marshal(kept)
+	raw, _ := json.Marshal(red)
+	signed, err := gmsl.SignJSON(name, keyID, priv, raw)
+	if err != nil {
+		return nil, err
+	}
+	var so struct {
+		Signatures map[string]map[string]string `json:"signatures"`
+	}
+	if err := json.Unmarshal(signed, &so); err != nil {
+		return nil, err
+	}
+	sigs := map[string]map[string]string{}
+	if raw, ok := top["signatures"]; ok {
+		_ = json.Unmarshal(raw, &sigs)
+	}
+	if sigs[name] == nil {
+		sigs[name] = map[string]string{}
+	}
+	sigs[name][string(keyID)] = so.Signatures[name][string(keyID)]
+	top["signatures"], _ = json.Marshal(sigs)
+	return json.Marshal(top)
 }
 
 func hasKeyID(ps []sigPlan, id gmsl.KeyID) bool {
